@@ -284,7 +284,7 @@ func (b *f5xBuilder) entry(e F5XEntry) {
 						tex = r2.Name
 					}
 				}
-				body.WriteString("  acc += textureSampleLevel(" + tex + ", " + r.Name + ", vec2<f32>(0.5), 0.0);\n")
+				body.WriteString("  acc += textureSampleLevel(" + tex + ", " + r.Name + ", vec2<f32>(0.5, 0.5), 0.0);\n")
 			case "comparison_sampler":
 				tex := ""
 				for _, r2 := range b.p.Resources {
@@ -292,7 +292,7 @@ func (b *f5xBuilder) entry(e F5XEntry) {
 						tex = r2.Name
 					}
 				}
-				body.WriteString("  acc.y += textureSampleCompareLevel(" + tex + ", " + r.Name + ", vec2<f32>(0.5), 0.5);\n")
+				body.WriteString("  acc.y += textureSampleCompareLevel(" + tex + ", " + r.Name + ", vec2<f32>(0.5, 0.5), 0.5);\n")
 			default:
 				if r.Name == b.helper {
 					body.WriteString("  acc += helper0();\n")
